@@ -75,7 +75,7 @@ XDrop == /\ Is("x_drop")
             /\ bad' = FirstOf(<<
                  <<k /\ calls[c].m = "add_nc" /\ ~srvEnded /\ ~oversized, "C19", "execution of a non-cancellable method was abandoned">>,
                  <<k /\ calls[c].m = "add_nc" /\ ~srvEnded /\ ~oversized, "C12", "a non-cancellable mutable method was interrupted half-way: the target is left in a state no call explains">>,
-                 <<k /\ calls[c].m = "fmut" /\ cut = {}, "C12", "a mutable remote function was interrupted half-way (it must run each request once, to completion)">> >>)
+                 <<k /\ calls[c].m = "fmut" /\ cut = {} /\ ~srvEnded, "C12", "a mutable remote function was interrupted half-way (it must run each request once, to completion)">> >>)
          /\ UNCHANGED <<val, cut, srvEnded, oversized, undec, consumed, clients>>
 Ret == /\ Is("c_ret")
        /\ LET c == Ev.call  it == calls[c]
@@ -117,7 +117,9 @@ End == /\ Is("r_end")
        /\ bad' = FirstOf(<<
             <<Ev.server_pending > 0 /\ Ev.pending = 0 /\ cut = {}, "C19", "the server did not end after all of its clients were dropped">>,
             <<\E c \in DOMAIN calls : calls[c].m = "add_nc" /\ calls[c].xst = "run" /\ cut = {} /\ ~oversized /\ Ev.server_pending = 0, "C19", "a non-cancellable execution never finished">> >>)
-       /\ UNCHANGED <<calls, val, running, cut, srvEnded, oversized, undec, consumed, clients>>
+       \* what is logged after r_end is the harness tearing the scenario down (tasks and connections are aborted)
+       /\ srvEnded' = TRUE
+       /\ UNCHANGED <<calls, val, running, cut, oversized, undec, consumed, clients>>
 KnownEv == {"c_new", "c_done", "reset", "c_call", "x_start", "x_end", "x_drop", "c_ret", "c_cancel", "fault", "srv_end", "r_clients_end", "r_end"}
 Skip == /\ l <= Len(Rec) /\ Ev.ev \notin KnownEv /\ l' = l + 1 /\ UNCHANGED <<calls, val, running, cut, srvEnded, oversized, undec, consumed, clients, bad>>
 Next == CNew \/ CDone \/ Reset \/ Call \/ XStart \/ XEnd \/ XDrop \/ Ret \/ Cancel \/ Fault \/ SrvEnd \/ ClientsEnd \/ End \/ Skip
